@@ -280,7 +280,7 @@ def gen_trace(r, typ=INT, nkeys=None, reuse=True, sorted_=False, max_items=None,
     return trace
 
 
-def gen_trace_scale(r, shape=None, min_n=0):
+def gen_trace_scale(r, shape=None, min_n=0, wave=None):
     """Traces at SCALE (thresholds of data-type widths, buffer sizes and growth policies): one or two keys with
     several hundred items; or hundreds of simultaneously live keys with a few items each; slot indices in the
     hundreds / low thousands; a long key whose slot is reused afterwards.  Items cycle through a small range so
@@ -315,7 +315,7 @@ def gen_trace_scale(r, shape=None, min_n=0):
         keys = pairs + [k for k in keys if k not in pairs]
         nk = len(keys)
         trace, made = [], []
-        wave = r.choice([1, 7, 16, nk])        # keys are created in waves, earlier keys receive items in between
+        wave = wave or r.choice([1, 7, 16, nk])        # keys are created in waves, earlier keys receive items in between
         rnd = 0
         for a in range(0, nk, wave):
             for k in keys[a:a + wave]:
